@@ -418,13 +418,34 @@ def _plan_list(gi, size, bound, gran, stride):
 
 
 _HOT = [False]
+_FRESH = [0]
+
+
+def respell(kind, vec, n):
+    """The same vector as a string never seen before in this process: absent optional metrics
+    written out as Not Defined, chosen by the bits of n (the short bodies' observations - scores
+    and cleaned vector - do not depend on that)."""
+    major = {"CVSS2": 2, "CVSS3": 3, "CVSS4": 4}.get(kind)
+    if major is None or T.classify_class(major, vec) != "ACCEPT":
+        return vec
+    fam = T.family_of(major, vec)
+    present = set(f.split(":")[0] for f in vec[len(T.PREFIX[fam]):].split("/"))
+    absent = [m for m in T.OPTIONAL[fam] if m not in present]
+    extra = ["%s:%s" % (m, T.ND[fam]) for b, m in enumerate(absent) if n >> b & 1]
+    return vec + "".join("/" + x for x in extra)
 
 
 def run_schedule(gi, size, plan, gran, hot=False):
     if hot and not _HOT[0]:
         heavy()                       # the thread that forks the workers' threads has a long past
         _HOT[0] = True
-    bodies = make_bodies(GROUPS[gi][2], size)
+    spec = GROUPS[gi][2]
+    if hot and size == "short":
+        # every execution constructs strings that are new to the process (whatever the library
+        # remembers per string is cold for them although the process is hot)
+        _FRESH[0] += 1
+        spec = [(k, respell(k, v, _FRESH[0] * 7 + i)) for i, (k, v) in enumerate(spec)]
+    bodies = make_bodies(spec, size)
     if (gi, size) not in _SEQ:
         _SEQ[(gi, size)] = [("ok", b()) for b in bodies]
     prefix = os.path.join(core.REPO, "cvss") + os.sep
@@ -505,11 +526,14 @@ def explore_schedules(ctx, res):
     # thread has a long past - a separate pool, so that no other task runs in a hot worker
     hot_tasks = []
     for gi, (name, klass, spec) in enumerate(GROUPS):
-        for bound, stride in ((0, 1), (1, 16 if ctx.thorough else 64)):
-            plans, npts = _plan_list(gi, "long", bound, "line", stride)
-            summary["%s | hot process, long bodies, bound %d, line/%d" % (name, bound, stride)] = {
+        for size, bound, stride in (("long", 0, 1), ("long", 1, 16 if ctx.thorough else 64),
+                                    ("short", 1, 1 if (ctx.thorough or klass == "v3") else 4)):
+            plans, npts = _plan_list(gi, size, bound, "line", stride)
+            summary["%s | hot process, %s bodies, bound %d, line/%d" % (name, size, bound, stride)] = {
                 "schedules": len(plans), "points_per_thread": npts}
-            hot_tasks.append((gi, "long", bound, "line", stride, 0, len(plans), True))
+            step = max(50, len(plans) // 4)
+            for lo in range(0, len(plans), step):
+                hot_tasks.append((gi, size, bound, "line", stride, lo, min(len(plans), lo + step), True))
     accs += core.pool_map(_sched_task, hot_tasks)
     tot = sweep.merge(accs)
     for c in tot["bad"]:
